@@ -307,6 +307,104 @@ Definition rtmp_write_session (hs : bool) (ms : list rmsg) (w : wtr) : N * optio
             (n2, e2, bw_under b)
   end.
 
+(* ============================== RTMP public write entry points ============================== *)
+(* An operation of a write session goes through WriteMessage directly, or through WritePacket with
+   a packet of some kind (0 connect, 1 createStream, 2 connect response, 3 createStream response,
+   4 call, 5 publish, 6 play, 7 SetChunkSize, 8 WindowAcknowledgementSize, 9 SetPeerBandwidth,
+   10 UserControl), transaction id [tid], and [named] = the CommandName is not empty.
+
+   rtmp.go, WritePacket:
+       m.Payload = pkt.MarshalBinary(); m.MessageType, m.streamID, m.betterCid = ...
+       if err = v.onPacketWriten(m, pkt); err != nil { return WithMessage(err, "on write packet") }
+       if err = v.WriteMessage(m); err != nil {
+           v.onPacketWriteFailed(pkt)
+           return oe.WithMessage(err, "write message")      -- the WriteMessage error, one more layer
+       }
+   requestTransaction yields (tid, name) for ConnectAppPacket / CreateStreamPacket only;
+   onPacketWriten registers transactions[tid] = name when tid > 0 && len(name) > 0 (never fails);
+   onPacketWriteFailed deletes transactions[tid] under the same condition.
+   Errors are cause ids here (as everywhere on the write side): WithMessage keeps the cause. *)
+Inductive wentry : Type := ViaMessage | ViaPacket (kind tid : N) (named : bool).
+
+Definition request_tid (e : wentry) : option N :=
+  match e with
+  | ViaPacket kind tid named =>
+      if ((kind =? 0)%N || (kind =? 1)%N) && (0 <? tid)%N && named then Some tid else None
+  | ViaMessage => None
+  end.
+Definition entry_kind (e : wentry) : N := match e with ViaPacket k _ _ => k | ViaMessage => 0%N end.
+
+(* the transactions map: tid -> command (the packet kind stands for its name) *)
+Definition txs : Type := list (N * N).
+Definition tx_del (tid : N) (t : txs) : txs := filter (fun p => negb (fst p =? tid)%N) t.
+Definition tx_set (tid v : N) (t : txs) : txs := (tid, v) :: tx_del tid t.
+Definition on_packet_writen (e : wentry) (t : txs) : txs :=
+  match request_tid e with Some x => tx_set x (entry_kind e) t | None => t end.
+Definition on_packet_write_failed (e : wentry) (t : txs) : txs :=
+  match request_tid e with Some x => tx_del x t | None => t end.
+
+Definition rtmp_write_entry (e : wentry) (pieces : list bytes) (t : txs) (b : bufw)
+  : option N * txs * bufw :=
+  match e with
+  | ViaMessage => let (oe, b') := rtmp_write_message pieces b in (oe, t, b')
+  | ViaPacket _ _ _ =>
+      let t1 := on_packet_writen e t in
+      match rtmp_write_message pieces b with
+      | (Some err, b') => (Some err, on_packet_write_failed e t1, b')
+      | (None, b') => (None, t1, b')
+      end
+  end.
+
+(* operations until the first error: (operations done, error, writer, transactions) *)
+Fixpoint rtmp_write_eops (ops : list (wentry * list bytes)) (t : txs) (b : bufw) (n : N)
+  : N * option N * bufw * txs :=
+  match ops with
+  | [] => (n, None, b, t)
+  | (e, o) :: r => match rtmp_write_entry e o t b with
+                   | (Some err, t', b') => (n, Some err, b', t')
+                   | (None, t', b') => rtmp_write_eops r t' b' (N.succ n)
+                   end
+  end.
+
+Definition rtmp_write_session_e (hs : bool) (ops : list (wentry * rmsg)) (w : wtr)
+  : N * option N * wtr * txs :=
+  let '(n1, e1, w1) := if hs then raw_copies [1; 1536; 1536]%N w 0%N else (0%N, None, w) in
+  match e1 with
+  | Some e => (n1, Some e, w1, [])
+  | None =>
+      let '(n2, e2, b, t) :=
+        rtmp_write_eops (combine (map fst ops) (msgs_write_ops DEFCHUNK (map snd ops)))
+                        [] (bufw_new w1) n1 in
+      (n2, e2, bw_under b, t)
+  end.
+
+(* the message WritePacket builds: chunk stream and message type of the packet kind, timestamp 0,
+   payload length of MarshalBinary (AMF0: string 3 + n, number 9, null 1, object 1 + sum (2 + key +
+   value) + 3); [arg] = length of the one string the harness puts into the packet (tcUrl property of
+   the connect command object, property d of the connect response args, call argument, stream name)
+   or the integer field of a control packet *)
+Definition pkt_name_len (kind : N) : N :=
+  match kind with
+  | 0 => 7 | 1 => 12 | 2 => 7 | 3 => 7 | 4 => 8 | 5 => 7 | _ => 4
+  end%N.
+Definition pkt_len (kind tid : N) (named : bool) (arg : N) : N :=
+  let nm := (3 + (if named then pkt_name_len kind else 0))%N in
+  match kind with
+  | 0 => nm + 9 + (1 + (2 + 5 + (3 + arg)) + 3)
+  | 1 => nm + 9 + 1
+  | 2 => nm + 9 + 4 + (if (arg =? 0) then 0 else 1 + (2 + 1 + (3 + arg)) + 3)
+  | 3 => nm + 9 + 1 + 9
+  | 4 => nm + 9 + 1 + (if (arg =? 0) then 0 else 3 + arg)
+  | 5 => nm + 9 + 1 + (3 + arg) + 7
+  | 6 => nm + 9 + 1 + (3 + arg)
+  | 7 => 4 | 8 => 4 | 9 => 5
+  | _ => if (tid =? 26) then 3 else if (tid =? 3) then 10 else 6
+  end%N.
+Definition pkt_msg (kind tid : N) (named : bool) (arg : N) : rmsg :=
+  let ty := match kind with 7 => 1 | 8 => 5 | 9 => 6 | 10 => 4 | _ => 20 end%N in
+  mk_rmsg 0 (if (kind <? 7)%N then 3 else 2)%N ty 0 (pkt_len kind tid named arg)
+          (if (kind =? 7)%N then arg else 0%N).
+
 (* ============================== harness interface ============================== *)
 Definition sxN (s : sx) : option N := match s with SZ z => Some (Z.to_N z) | _ => None end.
 Fixpoint sxNs (l : list sx) : option (list N) :=
@@ -457,11 +555,28 @@ Definition run_rtmp_read (hs : bool) (ms : list rmsg) (term : N) (mode : Z)
                         (mk_stream (repeat 0%N (N.to_nat k)) sizes term together) in
                SL [sN n; obs_cause e]) ks).
 
-Definition run_rtmp_write (sticky : bool) (hs : bool) (ms : list rmsg) (term m : N) (is : list N) : sx :=
+(* an operation of a write case: a message (through WriteMessage), or
+   (9 kind tid named sid arg seed): WritePacket of the packet described above *)
+Definition sx_wop (x : sx) : option (wentry * rmsg) :=
+  match x with
+  | SL [SZ 9%Z; SZ kind; SZ tid; SZ named; SZ _; SZ arg; SZ _] =>
+      let k := Z.to_N kind in
+      if (k <=? 10)%N then
+        Some (ViaPacket k (Z.to_N tid) (zbool named), pkt_msg k (Z.to_N tid) (zbool named) (Z.to_N arg))
+      else None
+  | _ => match sx_rmsg x with Some m => Some (ViaMessage, m) | None => None end
+  end.
+Fixpoint sx_wops (l : list sx) : option (list (wentry * rmsg)) :=
+  match l with
+  | [] => Some []
+  | x :: t => match sx_wop x, sx_wops t with Some a, Some r => Some (a :: r) | _, _ => None end
+  end.
+
+Definition run_rtmp_write (sticky : bool) (hs : bool) (ops : list (wentry * rmsg)) (term m : N) (is : list N) : sx :=
   s_ok (map (fun i =>
-               let '(n, e, w) := rtmp_write_session hs ms
+               let '(n, e, w, t) := rtmp_write_session_e hs ops
                                    (wtr_new_s sticky (Some i) m (if (term =? 0)%N then None else Some term)) in
-               SL [sN n; obs_ocause e; sN (lenN (wt_received w))]) is).
+               SL [sN n; obs_ocause e; sN (lenN (wt_received w)); sN (N.of_nat (length t))]) is).
 
 (* an optional trailing stickiness flag of a write case: absent or non-zero = sticky *)
 Definition sx_sticky (l : list sx) : bool :=
@@ -486,7 +601,7 @@ Definition run_c08 (c : sx) : sx :=
       | _, _, _ => bad_case
       end
   | SL (SZ 3%Z :: SZ 1%Z :: SZ hs :: SL msgs :: SZ term :: SZ m :: is :: st) =>
-      match sx_rmsgs msgs, sx_ks is with
+      match sx_wops msgs, sx_ks is with
       | Some ms, Some il => run_rtmp_write (sx_sticky st) (zbool hs) ms (Z.to_N term) (Z.to_N m) il
       | _, _ => bad_case
       end
